@@ -52,8 +52,8 @@ func Registry() []*Spec {
 	// ---- C11: every evaluator and representation agrees with Get
 	add(Spec{Property: "C11", Name: "VerifC11_Agree", Pkg: "jp",
 		Quick: map[string]int{"B": 4, "STEP": 2}, Thorough: map[string]int{"FULL": 1, "B": 6, "STEP": 3},
-		Covers: []string{"nonempty", "empty"}, UnitDepth: 5,
-		Note: "Has, First, FirstFound, Locate (+Get of each located path), Expr.Walk, GetNodes/FirstNode and Get on alt.Generify(data) against Get on the simple data; same data x path space as C05, paths not ending in a bare descent"})
+		Covers: []string{"nonempty", "empty"}, UnitDepth: 5, AllowUnsupported: []string{"(reflect.Value)."},
+		Note: "Has, First, FirstFound, Locate (+Get of each located path), Expr.Walk, GetNodes/FirstNode and Get / Has / First / Locate / Walk on alt.Generify(data), and Get / Has / First on the same tree held in user collections implementing jp.Keyed and jp.Indexed, against Get on the simple data; same data x path space as C05, paths not ending in a bare descent"})
 	// ---- C13: mutations touch exactly the selected locations
 	add(Spec{Property: "C13", Name: "VerifC13_Mutate", Pkg: "jp",
 		Quick: map[string]int{"B": 3, "STEP": 2, "NTHB": 4, "NSHAPES": 4}, Thorough: map[string]int{"B": 5, "STEP": 3, "NTHB": 6},
